@@ -193,16 +193,30 @@ structure FlagsTrue (f : TFlags) : Prop where
   sFinReadNil : f.sFinReadNil = true
   sFinAddedAfter : f.sFinAddedAfter = true
   finFullCompare : f.finFullCompare = true
+  decodedKeepRaw : f.decodedKeepRaw = true
 
 theorem flagsTrue {f : TFlags} (h : f.sound = true) : FlagsTrue f := by
   simp only [TFlags.sound, Bool.and_eq_true] at h
-  obtain ⟨⟨⟨⟨⟨⟨⟨⟨⟨⟨⟨⟨⟨h1, h2⟩, h3⟩, h4⟩, h5⟩, h6⟩, h7⟩, h8⟩, h9⟩, h10⟩, h11⟩, h12⟩, h13⟩, h17⟩ := h
-  exact ⟨h1, h2, h3, h4, h5, h6, h7, h8, h9, h10, h11, h12, h13, h17⟩
+  obtain ⟨⟨⟨⟨⟨⟨⟨⟨⟨⟨⟨⟨⟨⟨h1, h2⟩, h3⟩, h4⟩, h5⟩, h6⟩, h7⟩, h8⟩, h9⟩, h10⟩, h11⟩, h12⟩, h13⟩, h17⟩, h18⟩ := h
+  exact ⟨h1, h2, h3, h4, h5, h6, h7, h8, h9, h10, h11, h12, h13, h17, h18⟩
+
+/-- with `raw` kept, `transcriptMsg` of a decoded message hashes the received bytes -/
+theorem asMarshalled_eq {P : Prims} {f : TFlags} (ft : FlagsTrue f) (W : World P) (r : Role) (m : Msg) :
+    asMarshalled f W r m = m := by
+  simp [asMarshalled, ft.decodedKeepRaw]
+
+/-- … and the two ways the server reads the client's second flight hash the same thing -/
+theorem takeS_eq {P : Prims} {f : TFlags} (ft : FlagsTrue f) (W : World P) (h : HS P) (m : Msg) :
+    HS.takeS f W h m = HS.take h m true := by
+  unfold HS.takeS
+  split
+  · simp [HS.take, ft.sReadsHashed, asMarshalled_eq ft]
+  · simp [ft.sReadsHashed]
 
 /-! ### more building blocks: ChangeCipherSpec and Finished on a tail -/
 
 section blocks2
-variable {P : Prims} {k : Codes}
+variable {P : Prims} {k : Codes} {W : World P}
 
 /-- accepting the peer's ChangeCipherSpec as the first one of the handshake -/
 theorem Mid.recvCCS {h : HS P} {shd : Bool} (hm : Mid k h shd) (s : P.Secret) (hms : h.ms = some s)
@@ -231,11 +245,11 @@ theorem Tail.recvCCS {h : HS P} {A : List Entry} {s : P.Secret} {F : Msg} (ne : 
 /-- what a successful `readFinished` comparison tells -/
 theorem recvFinished_some {f : TFlags} (ft : FlagsTrue f) {h h1 : HS P} {s : P.Secret} {m : Msg}
     (hw : WellFramed m) (hty : mtype m = k.tFin)
-    (hr : HS.recvFinished f h s m true true = some h1) :
+    (hr : HS.recvFinished f W h s m true true = some h1) :
     m = finMsg k P s (!h.role.isClient) h.transcript ∧
     h1 = { h with log := h.log ++ [.msg false m], transcript := h.transcript ++ [m] } := by
   unfold HS.recvFinished at hr
-  simp only [ft.finFullCompare, finMatches, if_true] at hr
+  simp only [ft.finFullCompare, finMatches, if_true, asMarshalled_eq ft] at hr
   split at hr
   · rename_i heq
     simp only [Option.some.injEq] at hr
@@ -250,7 +264,7 @@ theorem done_own_first {f : TFlags} (ft : FlagsTrue f) (ne : CodesNe k) {h h1 : 
     {m : Msg} (hw : WellFramed m) (hty : mtype m = k.tFin)
     (ht : Tail k h A [.ccs true, .msg true (finMsg k P s h.role.isClient (msgsOf A)), .ccs false] s)
     (hd : (hasSHD k A == h.role.isClient) = true)
-    (hr : HS.recvFinished f h s m true true = some h1) (c : Ctl) :
+    (hr : HS.recvFinished f W h s m true true = some h1) (c : Ctl) :
     DoneShape k { h1 with ctl := c } := by
   obtain ⟨hm, rfl⟩ := recvFinished_some ft hw hty hr
   obtain ⟨hc, hl, hnf, hnc, htr, hms⟩ := ht
@@ -277,7 +291,7 @@ theorem done_peer_first {f : TFlags} (ft : FlagsTrue f) (ne : CodesNe k) {h h1 :
     {m : Msg} (hw : WellFramed m) (hty : mtype m = k.tFin)
     (ht : Tail k h A [.ccs false] s)
     (hd : (hasSHD k A == h.role.isClient) = false)
-    (hr : HS.recvFinished f h s m true true = some h1) (c : Ctl) :
+    (hr : HS.recvFinished f W h s m true true = some h1) (c : Ctl) :
     DoneShape k { HS.sendFinished k h1 s true with ctl := c } := by
   obtain ⟨hm, rfl⟩ := recvFinished_some ft hw hty hr
   obtain ⟨hc, hl, hnf, hnc, htr, hms⟩ := ht
@@ -475,7 +489,7 @@ theorem shape_onMsg (ft : FlagsTrue f) (ne : CodesNe k) {h : HS P} (hs : Shape k
           have := pre_snoc p0 false m (by rw [hty]; exact ne.ne_SH_Fin)
           simpa [hty, ne.ne_SH_SHD] using this
         · simp [hl, msgsOf]
-      simp only [HS.take, ft.cHelloAdded, ft.cServerHelloAdded, if_true, hl, List.singleton_append, if_false]
+      simp only [HS.take, ft.cHelloAdded, ft.cServerHelloAdded, if_true, hl, List.singleton_append, if_false, asMarshalled_eq ft]
       split
       · simp only [Shape]
         exact ⟨hr, by simpa [hl] using hmid _ _, _, rfl⟩
@@ -593,7 +607,7 @@ theorem shape_onMsg (ft : FlagsTrue f) (ne : CodesNe k) {h : HS P} (hs : Shape k
           simpa [tag, hic] using this
         · exact ⟨by simp [nFin, hty, ne.ne_CH_Fin], by simp [noCCS], by simp [hasSHD, hty, ne.ne_CH_SHD]⟩
         · simp [msgsOf]
-      simp only [HS.take, ft.sHelloAdded, if_true, hl, List.nil_append, if_false, ft.sWritesHashed]
+      simp only [HS.take, ft.sHelloAdded, if_true, hl, List.nil_append, if_false, ft.sWritesHashed, asMarshalled_eq ft]
       split
       · -- resumed: ServerHello, ChangeCipherSpec, Finished
         have m1 : Mid k (HS.emit W ({ role := h.role, ctl := h.ctl, log := [.msg false m], transcript := [m], ms := h.ms } : HS P) k.tSH true) false := by
@@ -617,7 +631,7 @@ theorem shape_onMsg (ft : FlagsTrue f) (ne : CodesNe k) {h : HS P} (hs : Shape k
     split
     · rename_i hcond
       have hty : mtype m = k.tCert := hcond.1
-      simp only [ft.sReadsHashed, Shape]
+      simp only [takeS_eq ft, Shape]
       have := Mid.take hm m (by rw [hty]; exact ne.ne_Cert_Fin) (by rw [cw_Cert ne _ _ hty, hic]; rfl)
       refine ⟨by simp [HS.take, hr], ?_⟩
       simpa using Mid.ctl this _
@@ -630,7 +644,7 @@ theorem shape_onMsg (ft : FlagsTrue f) (ne : CodesNe k) {h : HS P} (hs : Shape k
     split
     · rename_i hcond
       have hty : mtype m = k.tCKX := hcond.1
-      simp only [ft.sReadsHashed]
+      simp only [takeS_eq ft]
       have := Mid.take hm m (by rw [hty]; exact ne.ne_CKX_Fin) (by rw [cw_CKX ne _ _ hty, hic]; rfl)
       have hm2 : Mid k (HS.take h m true) true := by simpa using this
       split
@@ -647,7 +661,7 @@ theorem shape_onMsg (ft : FlagsTrue f) (ne : CodesNe k) {h : HS P} (hs : Shape k
     split
     · rename_i hcond
       have hty : mtype m = k.tCV := hcond.1
-      simp only [ft.sCVReadNil, ft.sCVAddedAfter, Bool.not_true, if_true, Shape]
+      simp only [ft.sCVReadNil, ft.sCVAddedAfter, Bool.not_true, if_true, Shape, asMarshalled_eq ft]
       have := Mid.take hm m (by rw [hty]; exact ne.ne_CV_Fin) (by rw [cw_CV ne _ _ hty, hic]; rfl)
       have hm2 : Mid k (HS.take h m true) true := by simpa using this
       refine ⟨by simp [HS.take, hr], ⟨?_, ?_, ?_⟩, s, by simp [HS.take, hms]⟩
@@ -702,12 +716,15 @@ theorem emit_role (h : HS P) (t : Nat) (b : Bool) : (HS.emit W h t b).role = h.r
 theorem sendFinished_role (h : HS P) (s : P.Secret) (b : Bool) : (HS.sendFinished k h s b).role = h.role := rfl
 
 theorem recvFinished_role {h h1 : HS P} {s : P.Secret} {m : Msg} {a b : Bool}
-    (hr : HS.recvFinished f h s m a b = some h1) : h1.role = h.role := by
+    (hr : HS.recvFinished f W h s m a b = some h1) : h1.role = h.role := by
   unfold HS.recvFinished at hr
   by_cases hc : finMatches f.finFullCompare (mbody m)
       (P.prf s (!h.role.isClient) (hashT P (if a = true then h.transcript else h.transcript ++ [m]))) = true
   · simp only [hc, if_true, Option.some.injEq] at hr; rw [← hr]
   · simp [hc] at hr
+
+theorem takeS_role (h : HS P) (m : Msg) : (HS.takeS f W h m).role = h.role := by
+  unfold HS.takeS; split <;> rfl
 
 theorem clientFlight_role (h : HS P) (r : Bool) : (HS.clientFlight k f W h r).role = h.role := by
   unfold HS.clientFlight
@@ -729,9 +746,9 @@ theorem onMsg_role (h : HS P) (m : Msg) : (HS.onMsg k f W h m).role = h.role := 
   all_goals (repeat' split)
   all_goals first
     | rfl
-    | exact recvFinished_role (by assumption)
-    | (simp only [sendFinished_role]; exact recvFinished_role (by assumption))
-    | (simp [HS.fail, HS.take, clientFlight_role, serverFlight_role, sendFinished_role, emit_role]; done)
+    | exact recvFinished_role W (by assumption)
+    | (simp only [sendFinished_role]; exact recvFinished_role W (by assumption))
+    | (simp [HS.fail, HS.take, clientFlight_role, serverFlight_role, sendFinished_role, emit_role, takeS_role]; done)
 
 /-- states reachable by the endpoint of role `r` -/
 inductive ReachR (k : Codes) (f : TFlags) (W : World P) (r : Role) : HS P → Prop where
